@@ -54,7 +54,9 @@ def anchor_filter(prop, result):
             if isinstance(sub, (_ast.FunctionDef, _ast.AsyncFunctionDef)) and sub is not node:
                 locs |= set(Defs(sub).defs)
         missing = [n for n in names if n not in locs]
-        if len(missing) >= max(1, (len(names) + 1) // 2):
+        # (plain renames never get here: the loader recognises them through the canonical form and shows the rules the
+        # confirmed spelling; what is left are rewrites that changed most of the function's vocabulary together with its shape)
+        if (len(names) >= 2 and len(missing) == len(names)) or (len(missing) >= 3 and len(missing) * 3 >= len(names) * 2):
             result.error("%s: %s is no longer recognised: %d of the %d local names the rule's patterns rely on (%s) no longer exist in it "
                          "(renamed or refactored); the rule needs re-confirmation, no verdict" % (f.rule, f.construct.split(".")[-1], len(missing), len(names), ", ".join(missing[:6])))
         else:
